@@ -170,6 +170,8 @@ impl StarlarkStr {
             let mut s = StarlarkHasher::new();
             hash_string_value(self.as_str(), &mut s);
             let hash = s.finish_small();
+            #[cfg(feature = "verif_hooks")]
+            crate::verif_hooks::sched_point(crate::verif_hooks::Site::StrHash);
             // If hash is zero, we are unlucky, but it is highly improbable.
             self.str.hash.store(hash.get(), atomic::Ordering::Relaxed);
             hash
